@@ -499,6 +499,20 @@ func (g *gen) stmt(d int, last bool) []Stmt {
 		if s := g.exit(d, last); s != nil {
 			return s
 		}
+		if g.fn == nil && !g.ex("collect") {
+			// store a value in the main list; mostly a plain variable read (loop counters included),
+			// so that a later write to the variable must not show in what was stored
+			g.feat("collect")
+			g.p.Acc = true
+			switch g.pick(4, "colk") {
+			case 0:
+				return []Stmt{&Collect{E: g.expr(TInt, 1)}}
+			case 1:
+				return []Stmt{&Collect{E: g.varOf(TStr)}}
+			default:
+				return []Stmt{&Collect{E: g.readInt()}}
+			}
+		}
 		return []Stmt{&Echo{Args: []Expr{g.expr(TInt, 1)}}}
 	case 8, 9, 10:
 		return []Stmt{g.ifStmt(d)}
